@@ -182,7 +182,8 @@ def run_cases(binary, pid, tier, seed, outdir, corpus=True):
         return r, None
     model_bin = os.path.join(LEAN, ".lake", "build", "bin", "ippmodel")
     with open(os.path.join(outdir, "cases.txt")) as fi, open(os.path.join(outdir, "model.out"), "w") as fo:
-        m = subprocess.run([model_bin], stdin=fi, stdout=fo, stderr=subprocess.PIPE, text=True, timeout=6 * 3600)
+        m = subprocess.run([model_bin], stdin=fi, stdout=fo, stderr=subprocess.PIPE, text=True, timeout=6 * 3600,
+                           preexec_fn=unlimited_stack)
     return r, m
 
 
@@ -192,20 +193,33 @@ def compare(outdir):
     cases, impl, model, oracle = rd("cases.txt"), rd("impl.out"), rd("model.out"), rd("oracle.out")
     n = len(cases) - 1 if cases and cases[-1] == "" else len(cases)
     dis, ofail, sfail = [], [], []
+    skipped = [0]
+    compare.skipped = 0
     for i in range(n):
         im = impl[i] if i < len(impl) else "<missing>"
         mo = model[i] if i < len(model) else "<missing>"
         spec = None
         if " ## " in mo:
             mo, spec = mo.split(" ## ", 1)
-        if im != mo:
+        if mo == "(model-skipped)":
+            skipped[0] += 1
+        elif im != mo:
             dis.append((i, cases[i], im, mo, "model and implementation disagree"))
         if spec is not None and spec != "-" and im != spec:
             sfail.append((i, cases[i], im, spec, "implementation differs from the specification's answer"))
         orc = oracle[i] if i < len(oracle) else "ok"
         if orc.startswith("FAIL"):
             ofail.append((i, cases[i], im, mo, orc[5:]))
+    compare.skipped = skipped[0]
     return n, dis, ofail, sfail
+
+
+def unlimited_stack():
+    import resource
+    try:
+        resource.setrlimit(resource.RLIMIT_STACK, (resource.RLIM_INFINITY, resource.RLIM_INFINITY))
+    except Exception:
+        pass
 
 
 def clip(s, n=600):
@@ -354,7 +368,7 @@ def check(pid, tier):
         "samples": stats.get("samples", [])[:5] or [clip(c) for (_, c, _, _, _) in (dis + ofail)[:2]] or ["(no cases run)"],
         "exhaustive": bool(stats.get("exhaustive", False)),
         "input_distribution": {"ops": stats.get("ops", {}), "classes": stats.get("classes", {}), "corpus_cases": stats.get("corpus_cases", 0)},
-        "correspondence": {"cases_compared": n, "model_vs_implementation_disagreements": len(dis),
+        "correspondence": {"cases_compared": n - getattr(compare, "skipped", 0), "cases_model_skipped": getattr(compare, "skipped", 0), "model_vs_implementation_disagreements": len(dis),
                            "implementation_oracle_failures": len(ofail), "implementation_vs_spec_failures": len(sfail)},
         "known_findings_seen": {k: v[1] for k, v in known_hits.items()},
         "leanchecker_rc": aud.get("leanchecker"),
